@@ -1,1 +1,114 @@
-import AutomataVerif.Model.NFAOps
+/-
+Props/C08.lean — NFA regular operations are total and compute the textbook language
+operations.
+
+English statement (properties.jsonl C08): "For any valid NFAs, union, concatenation, Kleene
+star, option, reversal, intersection, shuffle product, and left and right quotient (and the
++ | & operators) always return a valid NFA, never an error, whose language is exactly the
+corresponding operation on the operand languages.  This holds for operands with empty-string
+transitions, with empty or universal languages, with overlapping state names, and for
+results fed into further operations."
+
+Model: Model/NFAOps.lean mirrors the code function by function (state maps, fresh state,
+table loading, work-list product, constructor validation), with every Python failure mode
+as an `Except` branch.  Each theorem below says, for ALL valid operands (any state-name
+types, any alphabets, ε-moves, junk rows, any order of the lists that stand for sets):
+
+  * totality — the operation returns `.ok R` (no `KeyError`, no library exception);
+  * validity — `R` passes `validate` and is again `Valid` (so results can be fed back);
+  * language — `Lang R` is Mathlib's language operation applied to the operand languages,
+    where `Lang n` is `εNFA.accepts` of the textbook ε-NFA of the definition
+    (`Props/C01.lean` proves that this is what `accepts_input` computes).
+
+`Valid n` is: `n.validate = .ok ()` (exactly what `NFA.validate` checks) and the transition
+table is a dict of dicts (keys unique at both levels — a representation invariant of Python
+dicts, not a restriction on automata).
+-/
+import AutomataVerif.Proofs.EpsOpsA
+import AutomataVerif.Proofs.EpsOpsB
+import AutomataVerif.Proofs.NFAOpsUnary
+import AutomataVerif.Props.C01
+
+namespace AV.Props.C08
+open AV AV.NFA AV.Props.C01 AV.EpsOps
+
+set_option linter.unusedSectionVars false
+
+variable {σ σ₁ σ₂ α : Type} [DecidableEq σ] [DecidableEq σ₁] [DecidableEq σ₂] [DecidableEq α]
+
+/-- The language of an NFA definition: Mathlib's `εNFA.accepts` of its textbook ε-NFA. -/
+def Lang (n : AV.NFA σ α) : Language α := (nfaTextbook n).accepts
+
+/-- `Lang` is what the model's reader (and, by C01's correspondence, `accepts_input`) decides. -/
+theorem mem_Lang (n : AV.NFA σ α) (hv : n.validate = .ok ()) (w : List α) :
+    w ∈ Lang n ↔ n.accepts w = true := (C01_nfa_accepts_iff n hv w).symm
+
+/-- `Valid` unfolded: `validate` passes and the tables are dicts. -/
+theorem valid_iff (n : AV.NFA σ α) : n.Valid ↔ n.validate = .ok () ∧ Tbl.Dict n.trans :=
+  ⟨fun h => ⟨h.validate, h.dict⟩, fun h => ⟨(NFA.validate_eq_ok n).mp h.1, h.2⟩⟩
+
+/-- The states of a well-formed NFA are closed under its transitions. -/
+theorem closed_states (n : AV.NFA σ α) (wf : n.WF) : Closed (nfaTextbook n) {q | q ∈ n.states} :=
+  fun _ _ _ _ hp => NFA.targets_mem_states wf hp
+
+/-! ## option -/
+
+/-- **C08 (option).**  `A.option()` never fails, returns a valid NFA, and its language is
+`{ε} ∪ L(A)`. -/
+theorem C08_option (nat : Nat → σ) (hnat : Function.Injective nat) (A : AV.NFA σ α) (hA : A.Valid) :
+    ∃ R, NFA.option nat A = .ok R ∧ R.Valid ∧ Lang R = 1 + Lang A := by
+  have hfresh := addNewState_fresh nat (fun i j h => hnat h) A.states
+  refine ⟨optionRaw nat A, ?_, optionRaw_valid nat A hA, ?_⟩
+  · rw [option_eq, create_eq_ok _ (optionRaw_wf nat A hA.wf)]
+  · refine accepts_option (nfaTextbook (optionRaw nat A)) (nfaTextbook A) {q | q ∈ A.states}
+      (addNewState nat A.states) A.init (closed_states A hA.wf) hA.wf.initOk hfresh rfl rfl
+      ?_ ?_ ?_ ?_ ?_
+    · ext p
+      simp [nfaTextbook, optionRaw_targets_new]
+    · intro a
+      ext p
+      simp [nfaTextbook, optionRaw_targets_new]
+    · intro q hq a
+      have hne : q ≠ addNewState nat A.states := fun e => hfresh (e ▸ hq)
+      simp only [nfaTextbook, optionRaw_targets_old nat A hne]
+    · intro q hq
+      have hne : q ≠ addNewState nat A.states := fun e => hfresh (e ▸ hq)
+      simp [nfaTextbook, optionRaw, hne]
+    · simp [nfaTextbook, optionRaw]
+
+/-! ## kleene_star -/
+
+/-- **C08 (kleene_star).**  `A.kleene_star()` never fails, returns a valid NFA, and its
+language is `L(A)∗`. -/
+theorem C08_kleene_star (nat : Nat → σ) (hnat : Function.Injective nat) (A : AV.NFA σ α)
+    (hA : A.Valid) :
+    ∃ R, NFA.kleeneStar nat A = .ok R ∧ R.Valid ∧ Lang R = KStar.kstar (Lang A) := by
+  have hfresh := addNewState_fresh nat (fun i j h => hnat h) A.states
+  have hfin : addNewState nat A.states ∉ A.finals := fun h => hfresh (hA.wf.finalsOk _ h)
+  refine ⟨starRaw nat A, ?_, starRaw_valid nat A hA, ?_⟩
+  · rw [kleeneStar_eq, create_eq_ok _ (starRaw_wf nat A hA.wf)]
+  · refine accepts_star (nfaTextbook (starRaw nat A)) (nfaTextbook A) {q | q ∈ A.states}
+      (addNewState nat A.states) A.init (closed_states A hA.wf) hA.wf.initOk hfresh rfl rfl
+      ?_ ?_ ?_ ?_ ?_
+    · ext p
+      simp [nfaTextbook, starRaw_mem_targets, hfin]
+    · intro a
+      ext p
+      simp [nfaTextbook, starRaw_mem_targets, hfin]
+    · intro q hq a
+      have hne : q ≠ addNewState nat A.states := fun e => hfresh (e ▸ hq)
+      ext p
+      simp only [nfaTextbook, Set.mem_ofPred_eq, starRaw_mem_targets, hne, if_false, Set.mem_union]
+      constructor
+      · rintro (h | ⟨h1, h2, h3⟩)
+        · exact Or.inl h
+        · exact Or.inr ⟨h2, h1, h3⟩
+      · rintro (h | ⟨h1, h2, h3⟩)
+        · exact Or.inl h
+        · exact Or.inr ⟨h2, h1, h3⟩
+    · intro q hq
+      have hne : q ≠ addNewState nat A.states := fun e => hfresh (e ▸ hq)
+      simp [nfaTextbook, starRaw, hne]
+    · simp [nfaTextbook, starRaw]
+
+end AV.Props.C08
